@@ -918,6 +918,17 @@ func (t *fnTr) externCall(x *ast.CallExpr) (*extCall, bool) {
 			}
 			ec.outArgs = append(ec.outArgs, lv)
 			args = append(args, lv.name)
+		case k == "bmap" && t.calleeStoresInto(fn, i):
+			// a map[string]bool the callee stores into: threaded like an out-parameter (the argument must be a local map)
+			var lv *lvar
+			if id, ok := a.(*ast.Ident); ok {
+				lv = t.locals[t.p.info.Uses[id]]
+			}
+			if lv == nil || lv.kind != "bmap" || !lv.ownedMap() {
+				t.unsupported(x, "a map the callee stores into that is not a local map of this function")
+			}
+			ec.outArgs = append(ec.outArgs, lv)
+			args = append(args, lv.name)
 		case k == "val":
 			args = append(args, t.boxVal(a))
 		default:
@@ -967,6 +978,43 @@ func (t *fnTr) externCall(x *ast.CallExpr) (*extCall, bool) {
 	}
 	ec.term = "(" + name + " " + strings.Join(args, " ") + ")"
 	return ec, true
+}
+
+// calleeStoresInto: does the body of the package function fn contain a store p[k] = v into its i-th parameter?
+func (t *fnTr) calleeStoresInto(fn *types.Func, i int) bool {
+	for _, f := range t.p.files {
+		for _, d := range f.Decls {
+			fd, ok := d.(*ast.FuncDecl)
+			if !ok || fd.Body == nil || t.p.info.Defs[fd.Name] != types.Object(fn) {
+				continue
+			}
+			var pobj types.Object
+			n := 0
+			for _, fld := range fd.Type.Params.List {
+				for _, id := range fld.Names {
+					if n == i {
+						pobj = t.p.info.Defs[id]
+					}
+					n++
+				}
+			}
+			found := false
+			ast.Inspect(fd.Body, func(nd ast.Node) bool {
+				if as, ok := nd.(*ast.AssignStmt); ok {
+					for _, l := range as.Lhs {
+						if ix, ok := l.(*ast.IndexExpr); ok {
+							if id, ok := ix.X.(*ast.Ident); ok && pobj != nil && t.p.info.Uses[id] == pobj {
+								found = true
+							}
+						}
+					}
+				}
+				return true
+			})
+			return found
+		}
+	}
+	return false
 }
 
 // condIf translates `if cond then a else b` with Go's short-circuit evaluation, so that a partial operation
@@ -1397,9 +1445,12 @@ func (t *fnTr) retExpr(x *ast.ReturnStmt) string {
 	case len(t.resKind) == 1 && len(x.Results) == 1:
 		mark := len(t.guards)
 		var v string
-		if t.resKind[0] == "val" {
+		switch {
+		case t.resKind[0] == "val":
 			v = t.boxVal(x.Results[0])
-		} else {
+		case t.p.info.Types[x.Results[0]].IsNil():
+			v = fnZero(t.resKind[0]) // a nil slice / map and an empty one are the same model value
+		default:
 			v = t.expr(x.Results[0])
 		}
 		return t.wrap(mark, "Ret "+t.withState(v))
@@ -2169,6 +2220,9 @@ func (t *fnTr) rangeStmt(x *ast.RangeStmt, rest []ast.Stmt, end func() string) s
 		out = withIndex("val", "value")
 	case "vmap":
 		out = t.loop(x, x.Body, xs, func() string { return "'(" + name(x.Key, "str") + ", " + name(x.Value, "val") + ")" }, "(str * value)", rest, end)
+	case "bmap":
+		// the entries in list order, which stands for the (arbitrary) hash-iteration order of the run
+		out = t.loop(x, x.Body, xs, func() string { return "'(" + name(x.Key, "str") + ", " + name(x.Value, "bool") + ")" }, "(str * bool)", rest, end)
 	default:
 		t.unsupported(x, "range over this type")
 	}
@@ -2423,7 +2477,7 @@ func constTable(p *pkgInfo, vs *ast.ValueSpec, i int) (string, bool) {
 
 // the functions translated into Pure_gen.v ("Recv.Method" for methods)
 var pureFuncs = []string{"cast", "escapeChars", "parsePath", "getSubKeyMap", "hasSubKeys", "Map.PathForKeyShortest", "valuesForKeyPath", "hasKey", "hasKeyPath", "getLeafNodes",
-	"Map.ValuesForKey", "Map.oldValuesForPath", "Map.ValuesForPath", "Map.LeafNodes", "getJson", "NewMapJsonReader", "NewMapJsonReaderRaw", "Map.Exists", "Map.ValueForPath", "Map.ValueForKey", "Map.LeafPaths", "Map.LeafValues", "valuesForArray"}
+	"Map.ValuesForKey", "Map.oldValuesForPath", "Map.ValuesForPath", "Map.LeafNodes", "getJson", "NewMapJsonReader", "NewMapJsonReaderRaw", "Map.Exists", "Map.ValueForPath", "Map.ValueForKey", "Map.LeafPaths", "Map.LeafValues", "valuesForArray", "Map.PathsForKey"}
 
 func genPure(p *pkgInfo) string {
 	vars, _ := pkgVars(p)
